@@ -97,7 +97,7 @@ func (w *World) execCompose(st *Step) {
 	case "C11":
 		w.T.Count("validated_lists_applied", 1)
 		if aerr == nil {
-			w.T.Mark("c11:" + ietfShape(patches))
+			w.T.Mark("c11:" + ietfShape(patches) + "|" + opKinds(patches))
 			for _, member := range []string{ref.MPublicKey, ref.MService} {
 				before := ref.View(refDoc0, member)
 				after := ref.View(normDoc(got), member)
@@ -308,4 +308,18 @@ func toPatchesViaConstructors(ps []any) ([]patch.Patch, error) {
 		out = append(out, lp)
 	}
 	return out, nil
+}
+
+// opKinds lists the RFC 6902 operation kinds of a list in order.
+func opKinds(patches []any) string {
+	s := ""
+	for _, p := range patches {
+		m, _ := p.(map[string]any)
+		for _, o := range listOf(m["patches"]) {
+			om, _ := o.(map[string]any)
+			k, _ := om["op"].(string)
+			s += k + ","
+		}
+	}
+	return s
 }
